@@ -9,6 +9,7 @@ import Rare.Spec.C07Mode
 import Rare.Proofs.C07NumF64Arith
 import Rare.Proofs.C07AccOpt
 import Rare.Proofs.C07GroupKey
+import Rare.Gen.C07
 /-!
 C07 – Aggregators compute the exact fold of their sample history.
 
@@ -1190,5 +1191,180 @@ def exCfg : List AccTOp :=
   [.addGroup [103] "{1}".toList, .addData [99] "{.}x".toList [], .addData [108] "{c}:{2}".toList [45],
    .addData [99] "{2}".toList [], .setSort "{c}".toList]
 example : ∀ op ∈ exCfg, op.isSample = false := by decide
+
+/-! ## translator tie: the model equals what `harness/extract/c07.go` reads from /repo (`Gen/C07.lean`) -/
+
+/-- **The splitter's conditions and index arithmetic are the source's.**  `Done()` is the source's returned expression;
+the two `if` conditions of `Next` are the model's two tests (exhausted, delimiter not found – `strings.Index` = -1);
+when the delimiter is found at offset `i` of the rest, the field boundaries and the new position are the source's
+assignments `idx += s.next; s.next = idx + len(s.Delim)` (the F9 defect was `idx + 1` here). -/
+theorem splitter_matches_source (s : Splitter) :
+    s.done = Gen.C07.splitterDone s.next ∧
+    (∀ idx : Int, Gen.C07.splitterNextConds s.next idx = [s.done, decide (idx < 0)]) ∧
+    (s.done = false → ∀ i : Nat, indexOf s.delim (s.S.drop s.next.toNat) = some i →
+      s.next' = ((s.S.take (Gen.C07.splitterAdvance s.next i s.delim.length).1.toNat).drop s.next.toNat,
+                 { s with next := (Gen.C07.splitterAdvance s.next i s.delim.length).2 })) ∧
+    (s.done = false → indexOf s.delim (s.S.drop s.next.toNat) = none →
+      s.next' = (s.S.drop s.next.toNat, { s with next := -1 })) := by
+  refine ⟨rfl, fun _ => rfl, ?_, ?_⟩
+  · intro hd i hi
+    have hn : ¬ s.next < 0 := by simpa [Splitter.done] using hd
+    unfold Splitter.next'
+    rw [if_neg hn]
+    simp only [hi, Gen.C07.splitterAdvance]
+  · intro hd hi
+    have hn : ¬ s.next < 0 := by simpa [Splitter.done] using hd
+    unfold Splitter.next'
+    rw [if_neg hn]
+    simp only [hi]
+
+/-- **`Samplef` / `Variance` compute the source's expressions**, for every number type: the new count, mean and `M2` are
+the source's four statements `s.samples++; oldMean := s.mean; s.mean += (val - oldMean) / float64(s.samples);
+s.variance += (val - oldMean) * (val - s.mean)` (so the sum-of-squares variant of seeded/C07-variance-sumsq is a
+different function), `Min` / `Max` are updated under the source's two comparisons, `Variance()` is the source's guarded
+quotient, and they start at `math.Inf(1)` / `math.Inf(-1)`. -/
+theorem welford_matches_source {α : Type} (o : NumOps α) (keep : Bool) (s : Numerical α) (val : α) :
+    let r := Numerical.samplef o keep s val
+    (r.samples, r.mean, r.variance) = Gen.C07.welford o.add o.sub o.mul o.div o.ofNat s.samples s.mean s.variance val ∧
+    (r.min, r.max) = Gen.C07.minMaxUpdate o.lt s.min s.max val ∧
+    Numerical.varianceOf o s = Gen.C07.varianceOf o.div o.ofNat o.zero s.samples s.variance ∧
+    (f64Ops.maxVal, f64Ops.negMaxVal) =
+      (F64.inf (decide (Gen.C07.initInfSigns.1 < 0)), F64.inf (decide (Gen.C07.initInfSigns.2 < 0))) := by
+  refine ⟨rfl, rfl, ?_, by decide⟩
+  unfold Numerical.varianceOf Gen.C07.varianceOf
+  by_cases h : s.samples > 1 <;> simp [h]
+
+/-- **`Median` / `Quantile` index as the source says** (`n` = number of kept values): the empty test, `n/2`, and the two
+clamps `idx >= n → n-1`, `idx < 0 → 0` (F20 was the missing first clamp); the raw index is still
+`int(float64(len) * p)` and `Mode` is still the scan the model mirrors. -/
+theorem order_stats_match_source {α : Type} (zero : α) (ordered : List α) (idx : Int) :
+    median zero ordered =
+      (if (Gen.C07.medianIdx ordered.length).1 then zero
+       else ordered[(Gen.C07.medianIdx ordered.length).2.toNat]?.getD zero) ∧
+    quantileAt zero ordered idx =
+      (if (Gen.C07.quantileIdx ordered.length idx).1 then .ok zero
+       else match ordered[(Gen.C07.quantileIdx ordered.length idx).2.toNat]? with
+         | some v => .ok v
+         | none => .error "index out of range") ∧
+    Gen.C07.quantileRaw = "int(float64(len(s.orderedValues))*p)" ∧
+    Gen.C07.modeSource = ["if len(s.orderedValues) == 0 {", "return 0.0", "}", "maxObserved := 0", "maxValue := 0.0",
+      "currObserved := 0", "currValue := 0.0", "for i := 0; i < len(s.orderedValues); i++ {", "val := s.orderedValues[i]",
+      "if val != currValue {", "currValue = val", "currObserved = 0", "}", "currObserved++",
+      "if currObserved > maxObserved {", "maxValue = currValue", "maxObserved = currObserved", "}", "}", "return maxValue"] := by
+  refine ⟨?_, ?_, rfl, rfl⟩
+  · unfold median Gen.C07.medianIdx
+    by_cases h : ordered.length = 0
+    · simp [h]
+    · have h' : ¬ ((ordered.length : Int) = 0) := by omega
+      simp only [h, h', if_false, decide_false, Bool.false_eq_true]
+      have : (Int.tdiv (ordered.length : Int) 2).toNat = ordered.length / 2 := by
+        rw [Int.tdiv_eq_ediv_of_nonneg (by omega)]; omega
+      rw [this]
+  · unfold quantileAt Gen.C07.quantileIdx
+    by_cases h : ordered.length = 0
+    · simp [h]
+    · have h' : ¬ ((ordered.length : Int) = 0) := by omega
+      simp only [h, h', if_false, decide_false, Bool.false_eq_true, decide_eq_true_eq]
+      rfl
+
+/-- **`ComputeMinMax` / `minSlice` test and start as the source says**: the empty-table test, the start values
+`math.MaxInt64` / `math.MinInt64`, the two guarded assignments of the inner loop; `minSlice`'s `len(items) < count`. -/
+theorem minmax_matches_source (rs : List TableRow) (cs : List Bytes) :
+    Table.computeMinMaxWith rs cs =
+      (if Gen.C07.minMaxEmpty rs.length cs.length then (0, 0)
+       else rs.foldl (fun acc r => cs.foldl (fun (acc : Int × Int) c => Gen.C07.minMaxStep acc.1 acc.2 (r.value c)) acc)
+              Gen.C07.minMaxInit) ∧
+    (∀ {β : Type} (items : List β) (count : Int),
+      minSlice items count =
+        (if (Gen.C07.minSliceConds items.length count).headD false then .ok items
+         else if count < 0 then .error "slice bounds out of range" else .ok (items.take count.toNat))) := by
+  refine ⟨?_, ?_⟩
+  · unfold Table.computeMinMaxWith Gen.C07.minMaxEmpty Gen.C07.minMaxInit Gen.C07.minMaxStep
+    by_cases h : rs.length = 0 ∨ cs.length = 0
+    · have : ((decide ((rs.length : Int) = 0)) || (decide ((cs.length : Int) = 0))) = true := by
+        rcases h with h | h <;> simp [h]
+      rw [if_pos h, if_pos this]
+    · have : ¬ (((decide ((rs.length : Int) = 0)) || (decide ((cs.length : Int) = 0))) = true) := by
+        simp only [Bool.or_eq_true, decide_eq_true_eq]; omega
+      rw [if_neg h, if_neg this]
+      simp only [decide_eq_true_eq]
+  · intro β items count
+    unfold minSlice Gen.C07.minSliceConds
+    by_cases h : (items.length : Int) < count <;> simp [h]
+
+/-- **Group keys and the part look-ups follow the source's conditions**: `buildGroupKey` tests the number of group
+expressions for 0 and 1 in that order and its loop writes the separator before part `i` exactly when the source's
+condition (`i > 0`) holds – seeded/C07-groupkey-leading-empty replaces it by `sb.Len() > 0`, which is not a condition
+on `i` at all; `exprAccumulatorContext.GetMatch` runs its loop for `i < idx`, the sort context for `i <= idx`;
+`Parts` is still the `""` test followed by `strings.Split`. -/
+theorem groupkey_matches_source :
+    (∀ (ctx : Ctx) (g : AccGroupDef) (rest : List AccGroupDef) (i : Nat) (sb : Bytes),
+      joinGroupKey ctx (g :: rest) i sb =
+        match g.expr.run ctx with
+        | .error m => .error m
+        | .ok v => joinGroupKey ctx rest (i + 1) ((if Gen.C07.groupKeySep i then sb ++ nul else sb) ++ v)) ∧
+    (∀ (s : AccGroup) (ctx : Ctx), s.buildGroupKey ctx =
+      if (Gen.C07.groupKeyArity s.groupDef.length).getD 0 false then .ok []
+      else if (Gen.C07.groupKeyArity s.groupDef.length).getD 1 false then
+        (match s.groupDef.head? with | some g => g.expr.run ctx | none => .ok [])
+      else joinGroupKey ctx s.groupDef 0 []) ∧
+    (∀ (i : Nat) (idx : Int), Gen.C07.accGetMatchLoop i idx = decide (i < idx.toNat)) ∧
+    (∀ (i : Nat) (idx : Int), Gen.C07.sortGetMatchLoop i idx = (decide (0 ≤ idx) && decide (i < idx.toNat + 1))) ∧
+    (∀ (idx : Int) (d : Bool), Gen.C07.accGetMatchConds idx d = [decide (idx = 0), d]) ∧
+    (∀ d : Bool, Gen.C07.sortGetMatchConds d = [d]) ∧
+    Gen.C07.partsSource = ["if s == \"\" {", "return make([]string, 0)", "}",
+      "return strings.Split(string(s), expressions.ArraySeparatorString)"] := by
+  refine ⟨?_, ?_, ?_, ?_, fun _ _ => rfl, fun _ => rfl, rfl⟩
+  · intro ctx g rest i sb
+    rw [joinGroupKey]
+    have : Gen.C07.groupKeySep (i : Int) = decide (i > 0) := by
+      unfold Gen.C07.groupKeySep; by_cases h : i > 0 <;> simp [h] <;> omega
+    rw [this]
+    cases g.expr.run ctx <;> simp
+  · intro s ctx
+    unfold AccGroup.buildGroupKey Gen.C07.groupKeyArity
+    match s.groupDef with
+    | [] => simp
+    | [g] => simp
+    | g :: g' :: r =>
+      have h0 : ¬ ((r.length : Int) + 1 + 1 = 0) := by omega
+      have h1 : ¬ ((r.length : Int) + 1 + 1 = 1) := by omega
+      simp [h0, h1]
+  · intro i idx
+    unfold Gen.C07.accGetMatchLoop
+    by_cases h : (i : Int) < idx <;> simp [h] <;> omega
+  · intro i idx
+    unfold Gen.C07.sortGetMatchLoop
+    by_cases h : (i : Int) ≤ idx <;> simp [h] <;> omega
+
+/-- **The `Sample` methods, `Trim` and the sub-key insertion are still the statements the model mirrors** (text of the
+function bodies, statement by statement): the presence flag of `NextOk` decides between the explicit increment
+(`strconv.ParseInt(…, 10, 64)`, a failure only counts an error) and the default increment 1 (seeded/C07-empty-increment
+tests the value instead), `Trim` decides "column empty" from `removeAllInCol` (seeded/C07-trim-zero-col and C07-trim-zero-total test the
+running total instead), a new sub-key is inserted before the first greater one and every row is widened at its index. -/
+theorem sample_sources_match :
+    Gen.C07.counterSampleSource = ["splitter := stringSplitter.Splitter{ S: element, Delim: expressions.ArraySeparatorString, }",
+      "key := splitter.Next()", "val, hasVal := splitter.NextOk()", "if hasVal {", "valNum, err := strconv.ParseInt(val, 10, 64)",
+      "if err != nil {", "s.errors++", "} else {", "s.SampleValue(key, valNum)", "}", "} else {", "s.SampleValue(key, 1)", "}"] ∧
+    Gen.C07.subKeySampleSource = ["splitter := stringSplitter.Splitter{ S: element, Delim: expressions.ArraySeparatorString, }",
+      "key := splitter.Next()", "subkey := splitter.Next()", "sVal, hasVal := splitter.NextOk()", "if hasVal {",
+      "valNum, err := strconv.ParseInt(sVal, 10, 64)", "if err != nil {", "s.errors++", "} else {",
+      "s.SampleValue(key, subkey, valNum)", "}", "} else {", "s.SampleValue(key, subkey, 1)", "}"] ∧
+    Gen.C07.tableSampleSource = ["splitter := stringSplitter.Splitter{ S: ele, Delim: s.delim, }", "part0 := splitter.Next()",
+      "part1, has1 := splitter.NextOk()", "part2, has2 := splitter.NextOk()", "if has2 {",
+      "inc, err := strconv.ParseInt(part2, 10, 64)", "if err != nil {", "s.errors++", "} else {", "s.SampleItem(part0, part1, inc)", "}",
+      "} else if has1 {", "s.SampleItem(part0, part1, 1)", "} else {", "s.SampleItem(part0, \"\", 1)", "}"] ∧
+    Gen.C07.trimSource = ["trimmed := 0", "for colName := range s.cols {", "removeAllInCol := true",
+      "for rowName, row := range s.rows {", "if val, hasCell := row.cols[colName]; hasCell {",
+      "if predicate(colName, rowName, val) {", "delete(row.cols, colName)", "row.sum -= val", "s.cols[colName] -= val", "trimmed++",
+      "} else {", "removeAllInCol = false", "}", "}", "if len(row.cols) == 0 {", "delete(s.rows, rowName)", "}", "}",
+      "if removeAllInCol {", "delete(s.cols, colName)", "}", "}", "return trimmed"] ∧
+    Gen.C07.subkeyIndexSource = ["if idx, ok := s.subKeyIdx[subkey]; !ok {", "s.subKeys, idx = insertAlphanumeric(s.subKeys, subkey)",
+      "for i, name := range s.subKeys {", "s.subKeyIdx[name] = i", "}", "for _, item := range s.matches {",
+      "item.submatches = insertAti64(item.submatches, idx, 0)", "}", "return idx", "} else {", "return idx", "}"] ∧
+    Gen.C07.insertAlphanumericSource = ["for i, val := range slice {", "if ele < val {", "ret = insertAt(slice, i, ele)", "idx = i",
+      "return", "}", "}", "idx = len(slice)", "ret = append(slice, ele)", "return"] :=
+  ⟨rfl, rfl, rfl, rfl, rfl, rfl⟩
+
 
 end Rare.C07
